@@ -10,6 +10,8 @@ import (
 	"encoding/json"
 	"errors"
 	"fmt"
+	"math"
+	"math/big"
 	"runtime"
 	"runtime/debug"
 	"sort"
@@ -59,6 +61,10 @@ var stNames = []string{"absent", "live", "deleted", "truncated"}
 //	Fam "B": build the layout, advance the clock to Now, call Service.DeletionCheck once.
 //	Fam "A": build the layout, advance the clock to Now, write the batch {Now-R+off : off in Batch} with
 //	         PointsWriter.WritePointsPrivileged.
+//	Fam "X": groups at the extremes of the representable time range (Anchors: state of the group that contains
+//	         MinNanoTime / the Unix epoch / the fake now / 2262-04-11T00:00Z / MaxNanoTime), very long retention periods;
+//	         RetentionPolicyInfo.ExpiredShardGroups(t) at every check time of xTimes, then one Service.DeletionCheck
+//	         at the fake now (2000-01-01T00:00Z).
 type Case struct {
 	Fam     string `json:"family"`
 	R       int64  `json:"retention_ns"`
@@ -68,9 +74,17 @@ type Case struct {
 	NowDesc string `json:"now_desc"` // e.g. "boundary2+R-1"
 	Batch   []int  `json:"batch,omitempty"`
 	Phantom bool   `json:"phantom,omitempty"` // shards of already-deleted groups are not in the local store
+	Anchors []int  `json:"anchors,omitempty"` // family X: state of the group containing each anchor timestamp (see anchors)
 }
 
 func (c Case) String() string {
+	if c.Fam == "X" {
+		var l []string
+		for i, s := range c.Anchors {
+			l = append(l, anchors[i].name+":"+stNames[s])
+		}
+		return fmt.Sprintf("family X: R=%s d=%s groups-at=[%s] now=2000-01-01T00:00:00Z", rLabel(c.R), time.Duration(c.D), strings.Join(l, ","))
+	}
 	var l []string
 	for _, s := range c.Layout {
 		l = append(l, stNames[s])
@@ -609,8 +623,409 @@ func runA(w *world) (res result) {
 	return
 }
 
+// ---- family X: the extremes of the representable time range ----
+
+type anchor struct {
+	name string
+	ns   int64
+}
+
+// models.MinNanoTime / models.MaxNanoTime are MinInt64+2 / MaxInt64-1 (the smallest / largest timestamp a point may carry)
+var anchors = []anchor{
+	{"MinNanoTime", math.MinInt64 + 2},
+	{"epoch", 0},
+	{"now", bubbleStart.UnixNano()},
+	{"2262-04-11", time.Date(2262, 4, 11, 0, 0, 0, 0, time.UTC).UnixNano()},
+	{"MaxNanoTime", math.MaxInt64 - 1},
+}
+
+const year = 365 * 24 * time.Hour
+
+// retention periods of family X (all finite; infinite retention is the always-present second policy)
+var xRetentions = []time.Duration{time.Hour, 24 * time.Hour, 100 * year, 250 * year, math.MaxInt64}
+
+func rLabel(r int64) string {
+	switch time.Duration(r) {
+	case 100 * year:
+		return "100y"
+	case 250 * year:
+		return "250y"
+	case math.MaxInt64:
+		return "MaxInt64ns"
+	}
+	return time.Duration(r).String()
+}
+
+// check times handed directly to RetentionPolicyInfo.ExpiredShardGroups
+var xTimes = []anchor{
+	{"epoch+1h", int64(time.Hour)},
+	{"now", bubbleStart.UnixNano()},
+	{"2262-04-11T23:00", time.Date(2262, 4, 11, 23, 0, 0, 0, time.UTC).UnixNano()},
+	{"MaxNanoTime", math.MaxInt64 - 1},
+}
+
+type xgroup struct {
+	id         uint64
+	start, end int64 // ns; end is exclusive
+	deleted    bool
+	shards     []uint64
+	anchor     string // first anchor the group contains
+}
+
+// readGroups reads the groups of a policy back from the meta client (fixture read-back: bounds, deleted mark, shards).
+func (w *world) readGroups(policy string) ([]xgroup, error) {
+	rpi, err := w.mc.RetentionPolicy(dbName, policy)
+	if err != nil || rpi == nil {
+		return nil, fmt.Errorf("fixture: policy %s: %v", policy, err)
+	}
+	var out []xgroup
+	for i := range rpi.ShardGroups {
+		sg := &rpi.ShardGroups[i]
+		g := xgroup{id: sg.ID, start: sg.StartTime.UnixNano(), end: sg.EndTime.UnixNano(), deleted: !sg.DeletedAt.IsZero(), shards: sgShards(sg), anchor: "none"}
+		if !time.Unix(0, g.start).Equal(sg.StartTime) || !time.Unix(0, g.end).Equal(sg.EndTime) || g.end <= g.start {
+			return nil, fmt.Errorf("fixture: group %d bounds [%s,%s) are not int64 nanoseconds", sg.ID, sg.StartTime, sg.EndTime)
+		}
+		for j := len(anchors) - 1; j >= 0; j-- {
+			if g.start <= anchors[j].ns && anchors[j].ns < g.end {
+				g.anchor = anchors[j].name
+			}
+		}
+		out = append(out, g)
+	}
+	return out, nil
+}
+
+func buildX(cs Case) (*world, error) {
+	if !time.Now().Equal(bubbleStart) {
+		return nil, fmt.Errorf("fixture: bubble clock starts at %s", time.Now())
+	}
+	w := &world{cs: cs, store: &fakeStore{blocked: map[uint64]bool{}, written: map[uint64][]int64{}}}
+	kv := inmem.NewKVStore()
+	if err := kv.CreateBucket(context.Background(), meta.BucketName); err != nil {
+		return nil, err
+	}
+	w.mc = meta.NewClient(meta.NewConfig(), kv)
+	if err := w.mc.Open(); err != nil {
+		return nil, err
+	}
+	R, d, one, zero := time.Duration(cs.R), time.Duration(cs.D), 1, time.Duration(0)
+	if _, err := w.mc.CreateDatabaseWithRetentionPolicy(dbName, &meta.RetentionPolicySpec{Name: rpName, ReplicaN: &one, Duration: &R, ShardGroupDuration: d}); err != nil {
+		return nil, err
+	}
+	if _, err := w.mc.CreateRetentionPolicy(dbName, &meta.RetentionPolicySpec{Name: keepName, ReplicaN: &one, Duration: &zero, ShardGroupDuration: d}, false); err != nil {
+		return nil, err
+	}
+	for _, pol := range []struct {
+		name string
+		r    time.Duration
+	}{{rpName, R}, {keepName, 0}} {
+		rpi, err := w.mc.RetentionPolicy(dbName, pol.name)
+		if err != nil || rpi == nil || rpi.Duration != pol.r || rpi.ShardGroupDuration != d {
+			return nil, fmt.Errorf("fixture: policy %s not as requested: %+v %v", pol.name, rpi, err)
+		}
+	}
+	known := map[uint64]bool{}
+	mk := func(policy string, ts int64) (*meta.ShardGroupInfo, error) {
+		t := time.Unix(0, ts).UTC()
+		sg, err := w.mc.CreateShardGroup(dbName, policy, t)
+		if err != nil || sg == nil {
+			return nil, fmt.Errorf("fixture: CreateShardGroup(%s): %v", t, err)
+		}
+		if sg.StartTime.After(t) || !sg.EndTime.After(t) || !sg.DeletedAt.IsZero() {
+			return nil, fmt.Errorf("fixture: group [%s,%s) does not contain %s", sg.StartTime, sg.EndTime, t)
+		}
+		if !known[sg.ID] {
+			known[sg.ID] = true
+			w.store.ids = append(w.store.ids, sgShards(sg)...)
+		}
+		return sg, nil
+	}
+	var trunc []uint64
+	for i, a := range anchors {
+		if cs.Anchors[i] == stAbsent {
+			continue
+		}
+		sg, err := mk(rpName, a.ns)
+		if err != nil {
+			return nil, err
+		}
+		switch cs.Anchors[i] {
+		case stDeleted:
+			if err := w.mc.DeleteShardGroup(dbName, rpName, sg.ID); err != nil {
+				return nil, err
+			}
+		case stTruncated:
+			trunc = append(trunc, sg.ID)
+		}
+	}
+	if len(trunc) > 0 {
+		data := w.mc.Data()
+		rp, err := data.RetentionPolicy(dbName, rpName)
+		if err != nil || rp == nil {
+			return nil, fmt.Errorf("fixture: %v", err)
+		}
+		for i := range rp.ShardGroups {
+			for _, id := range trunc {
+				if rp.ShardGroups[i].ID == id && rp.ShardGroups[i].DeletedAt.IsZero() {
+					rp.ShardGroups[i].TruncatedAt = rp.ShardGroups[i].StartTime.Add(d / 2)
+				}
+			}
+		}
+		if err := w.mc.SetData(&data); err != nil {
+			return nil, err
+		}
+	}
+	for _, a := range anchors {
+		if _, err := mk(keepName, a.ns); err != nil {
+			return nil, err
+		}
+	}
+	if !time.Now().Equal(bubbleStart) {
+		return nil, fmt.Errorf("fixture: clock moved to %s", time.Now())
+	}
+	return w, nil
+}
+
+// expiredAt is the reference: the whole half-open range [start,end) of the group is older than t-R, i.e.
+// end <= t-R, evaluated in unbounded integers (end + R <= t).
+func expiredAt(endNS, rNS, tNS int64) bool {
+	if rNS == 0 {
+		return false
+	}
+	sum := new(big.Int).Add(big.NewInt(endNS), big.NewInt(rNS))
+	return sum.Cmp(big.NewInt(tNS)) <= 0
+}
+
+func beyondInt64(endNS, rNS int64) bool {
+	sum := new(big.Int).Add(big.NewInt(endNS), big.NewInt(rNS))
+	return !sum.IsInt64()
+}
+
+// runX: same "only when" reference as runB, on groups at the extremes of the time range and very long retention
+// periods: (1) every group RetentionPolicyInfo.ExpiredShardGroups(t) returns for a check time t has end <= t-R (or is
+// already marked deleted); the infinite policy returns none; (2) one DeletionCheck at the fake now deletes / removes
+// only such groups and their shards and touches nothing else.
+func runX(w *world) (res result) {
+	res.extra = map[string]int64{}
+	cs := w.cs
+	groups, err := w.readGroups(rpName)
+	if err != nil {
+		res.err = err
+		return
+	}
+	keep, err := w.readGroups(keepName)
+	if err != nil {
+		res.err = err
+		return
+	}
+	byID := map[uint64]xgroup{}
+	byShard := map[uint64]xgroup{}
+	for _, g := range groups {
+		byID[g.id] = g
+		for _, s := range g.shards {
+			byShard[s] = g
+		}
+	}
+	keepID, keepShard := map[uint64]bool{}, map[uint64]bool{}
+	for _, g := range keep {
+		keepID[g.id] = true
+		for _, s := range g.shards {
+			keepShard[s] = true
+		}
+	}
+	feat := func(g xgroup, ok bool, isKeep bool) string {
+		switch {
+		case isKeep:
+			return "policy=keep(infinite)"
+		case !ok:
+			return "unknown-id"
+		}
+		f := "anchor=" + g.anchor + ",end+R-within-int64"
+		if beyondInt64(g.end, cs.R) {
+			f = "anchor=" + g.anchor + ",end+R-beyond-int64"
+		}
+		return f
+	}
+	var obs []string
+
+	// (1) the selection function at every check time
+	for _, pol := range []string{rpName, keepName} {
+		rpi, err := w.mc.RetentionPolicy(dbName, pol)
+		if err != nil || rpi == nil {
+			res.err = fmt.Errorf("fixture: %v", err)
+			return
+		}
+		for _, ct := range xTimes {
+			var got []*meta.ShardGroupInfo
+			t := time.Unix(0, ct.ns).UTC()
+			if p, desc := vlib.Guard(func() { got = rpi.ExpiredShardGroups(t) }); p {
+				res.vios = append(res.vios, vio{vlib.JoinSig("enforce-extremes", "panic", desc), "ExpiredShardGroups panicked: " + desc})
+				return
+			}
+			var ids []uint64
+			for _, sg := range got {
+				ids = append(ids, sg.ID)
+				g, ok := byID[sg.ID]
+				if pol == rpName && ok && (g.deleted || expiredAt(g.end, cs.R, ct.ns)) {
+					continue
+				}
+				res.vios = append(res.vios, vio{vlib.JoinSig("enforce-extremes", "ExpiredShardGroups-returns-unexpired-group", feat(g, ok, pol == keepName)),
+					fmt.Sprintf("ExpiredShardGroups(t=%s) of policy %s (R=%s) returned group %d [%s,%s) although its range is not entirely older than t-R",
+						ct.name, pol, rLabel(rpi.Duration.Nanoseconds()), sg.ID, sg.StartTime.UTC().Format(time.RFC3339Nano), sg.EndTime.UTC().Format(time.RFC3339Nano))})
+			}
+			if pol == rpName {
+				res.outcomes = append(res.outcomes, fmt.Sprintf("X:ExpiredShardGroups@%s:returned=%d", ct.name, len(ids)))
+				obs = append(obs, fmt.Sprintf("ExpiredShardGroups@%s%s", ct.name, u64s(ids)))
+			}
+		}
+	}
+
+	// (2) one DeletionCheck at the fake now
+	nowNS := time.Now().UnixNano()
+	mayGroup, mayShard := map[uint64]bool{}, map[uint64]bool{}
+	nExpired, nLive := 0, 0
+	for _, g := range groups {
+		exp := !g.deleted && expiredAt(g.end, cs.R, nowNS)
+		if !g.deleted {
+			nLive++
+		}
+		if exp {
+			nExpired++
+		}
+		if g.deleted || exp {
+			mayGroup[g.id] = true
+			for _, s := range g.shards {
+				mayShard[s] = true
+			}
+		}
+	}
+	beforeRP, beforeKeep := w.observeGroups(rpName), w.observeGroups(keepName)
+	rec := &recMC{Client: w.mc}
+	svc := retention.NewService(retention.NewConfig())
+	svc.SetOSSMetaClient(rec)
+	svc.TSDBStore = w.store
+	svc.DropShardMetaRef = retention.OSSDropShardMetaRef(rec)
+	if p, desc := vlib.Guard(func() { svc.DeletionCheck(context.Background()) }); p {
+		res.vios = append(res.vios, vio{vlib.JoinSig("enforce-extremes", "panic", desc), "DeletionCheck panicked: " + desc})
+		return
+	}
+	deletedExpired := 0
+	for _, id := range rec.delGroups {
+		if mayGroup[id] {
+			deletedExpired++
+			continue
+		}
+		g, ok := byID[id]
+		res.vios = append(res.vios, vio{vlib.JoinSig("enforce-extremes", "DeleteShardGroup-on-unexpired-group", feat(g, ok, keepID[id])),
+			fmt.Sprintf("DeleteShardGroup(%d) although the group [%s,%s) is not entirely older than now-R", id, fmtNS(g.start), fmtNS(g.end))})
+	}
+	for _, id := range w.store.deleted {
+		if !mayShard[id] {
+			g, ok := byShard[id]
+			res.vios = append(res.vios, vio{vlib.JoinSig("enforce-extremes", "DeleteShard-on-unexpired-shard", feat(g, ok, keepShard[id])),
+				fmt.Sprintf("TSDBStore.DeleteShard(%d) although its group [%s,%s) is neither expired nor marked deleted", id, fmtNS(g.start), fmtNS(g.end))})
+		}
+	}
+	for _, id := range rec.dropShards {
+		if !mayShard[id] {
+			g, ok := byShard[id]
+			res.vios = append(res.vios, vio{vlib.JoinSig("enforce-extremes", "DropShard-on-unexpired-shard", feat(g, ok, keepShard[id])),
+				fmt.Sprintf("meta DropShard(%d) although its group is neither expired nor marked deleted", id)})
+		}
+	}
+	var stillBlocked []uint64
+	for id, b := range w.store.blocked {
+		if b && !mayShard[id] {
+			stillBlocked = append(stillBlocked, id)
+		}
+	}
+	sort.Slice(stillBlocked, func(i, j int) bool { return stillBlocked[i] < stillBlocked[j] })
+	for _, id := range stillBlocked {
+		g, ok := byShard[id]
+		res.vios = append(res.vios, vio{vlib.JoinSig("enforce-extremes", "readers-blocked-on-unexpired-shard", feat(g, ok, keepShard[id])),
+			fmt.Sprintf("shard %d left blocked for new readers although it is not expired", id)})
+	}
+	chk := func(policy string, before map[uint64]groupObs) {
+		after := w.observeGroups(policy)
+		ids := make([]uint64, 0, len(before))
+		for id := range before {
+			ids = append(ids, id)
+		}
+		sort.Slice(ids, func(i, j int) bool { return ids[i] < ids[j] })
+		for _, id := range ids {
+			if mayGroup[id] {
+				continue
+			}
+			if b, a := before[id], after[id]; a != b {
+				g, ok := byID[id]
+				res.vios = append(res.vios, vio{vlib.JoinSig("enforce-extremes", "unexpired-group-metadata-changed", feat(g, ok, keepID[id])),
+					fmt.Sprintf("group %d of policy %s changed from %+v to %+v", id, policy, b, a)})
+			}
+		}
+	}
+	chk(rpName, beforeRP)
+	chk(keepName, beforeKeep)
+
+	res.extra["x_live_groups"] = int64(nLive)
+	res.extra["x_expired_groups"] = int64(nExpired)
+	res.extra["x_expired_groups_deleted"] = int64(deletedExpired)
+	switch {
+	case nExpired == 0 && len(rec.delGroups) == 0:
+		res.outcomes = append(res.outcomes, "X:DeletionCheck:nothing-expired/nothing-deleted")
+	case deletedExpired == nExpired:
+		res.outcomes = append(res.outcomes, fmt.Sprintf("X:DeletionCheck:all-%d-expired-groups-deleted", nExpired))
+	default:
+		res.outcomes = append(res.outcomes, fmt.Sprintf("X:DeletionCheck:%d-of-%d-expired-groups-deleted(allowed:lag-at-boundary)", deletedExpired, nExpired))
+	}
+	res.obs = fmt.Sprintf("%s DeleteShardGroup%s DeleteShard%s DropShard%s expired=%d", strings.Join(obs, " "), u64s(rec.delGroups), u64s(w.store.deleted), u64s(rec.dropShards), nExpired)
+	return
+}
+
+func fmtNS(ns int64) string { return time.Unix(0, ns).UTC().Format(time.RFC3339Nano) }
+
+// xLayouts: every assignment of nStates states to the 5 anchors, fewest existing groups first.
+func xLayouts(nStates int) [][]int {
+	var out [][]int
+	total := 1
+	for range anchors {
+		total *= nStates
+	}
+	for code := 0; code < total; code++ {
+		l := make([]int, len(anchors))
+		x := code
+		for i := len(anchors) - 1; i >= 0; i-- {
+			l[i] = x % nStates
+			x /= nStates
+		}
+		out = append(out, l)
+	}
+	sort.SliceStable(out, func(i, j int) bool {
+		ni, nj := 0, 0
+		for k := range anchors {
+			if out[i][k] != stAbsent {
+				ni++
+			}
+			if out[j][k] != stAbsent {
+				nj++
+			}
+		}
+		return ni < nj
+	})
+	return out
+}
+
 func runCase(t *testing.T, cs Case) (res result) {
 	synctest.Test(t, func(t *testing.T) {
+		if cs.Fam == "X" {
+			w, err := buildX(cs)
+			if err != nil {
+				res.err = err
+				return
+			}
+			defer w.mc.Close()
+			res = runX(w)
+			return
+		}
 		w, err := build(cs)
 		if err != nil {
 			res.err = err
@@ -660,11 +1075,13 @@ func layouts(nStates int) [][]int {
 func TestCheck(t *testing.T) {
 	vlib.Main(t, &vlib.Check{
 		ID: "C19", Level: "exploration",
-		Rule: "(retention R, shard group duration d) in {(0,1h),(0,24h),(1h,1h),(24h,1h),(24h,24h)} (all combinations of R in {0,1h,24h}, d in {1h,24h} that CreateRetentionPolicy accepts); layouts = every assignment of {absent, live, deleted, truncated} (thorough; quick: {absent, live, deleted}) to 5 consecutive shard-group windows built through the real meta.Client; now = every window boundary -1/0/+1 ns and (R!=0) every boundary + R -1/0/+1 ns on the fake clock of a synctest bubble. Family B: one retention.Service.DeletionCheck per (combo, layout, now) [thorough: also with the already-deleted groups' shards missing from the local store]; a second policy with infinite retention and 5 live groups is always present. Family A: per (combo, layout, now) every batch of 1 or 2 points (ordered, 12 batches) with timestamps in {now-R-1, now-R, now-R+1} through PointsWriter.WritePointsPrivileged with a recording shard store [quick: layouts of the A family restricted to {absent, live}]. Cases are distinct by construction; non-trivial = B cases with at least one live/truncated group or A cases.",
+		Rule: "(retention R, shard group duration d) in {(0,1h),(0,24h),(1h,1h),(24h,1h),(24h,24h)} (all combinations of R in {0,1h,24h}, d in {1h,24h} that CreateRetentionPolicy accepts); layouts = every assignment of {absent, live, deleted, truncated} (thorough; quick: {absent, live, deleted}) to 5 consecutive shard-group windows built through the real meta.Client; now = every window boundary -1/0/+1 ns and (R!=0) every boundary + R -1/0/+1 ns on the fake clock of a synctest bubble. Family B: one retention.Service.DeletionCheck per (combo, layout, now) [thorough: also with the already-deleted groups' shards missing from the local store]; a second policy with infinite retention and 5 live groups is always present. Family A: per (combo, layout, now) every batch of 1 or 2 points (ordered, 12 batches) with timestamps in {now-R-1, now-R, now-R+1} through PointsWriter.WritePointsPrivileged with a recording shard store [quick: layouts of the A family restricted to {absent, live}]. Family X (extremes of the time range): groups built through the real meta.Client at the five anchor timestamps MinNanoTime, Unix epoch, the fake now 2000-01-01T00:00Z, 2262-04-11T00:00Z, MaxNanoTime, every assignment of {absent, live, deleted} (thorough: + truncated) to the anchors (anchors falling into one group share it) x d in {1h,24h} x R in {1h, 24h, 100y, 250y, MaxInt64 ns} (R >= d) ; per case RetentionPolicyInfo.ExpiredShardGroups(t) for t in {epoch+1h, now, 2262-04-11T23:00Z, MaxNanoTime} on both policies and then one Service.DeletionCheck at the fake now; reference end+R <= t in unbounded integers. " +
+			"Cases are distinct by construction; non-trivial = B/X cases with at least one live/truncated group or A cases.",
 		Assumptions: []string{
 			"'entire time range older than now-R' for a half-open group [start,end) means end <= now-R; only deletion of a group that is NOT in this set is an alarm (the 'only when' direction); late deletion is reported as an outcome",
 			"'older than now minus the retention period' means t < now-R (time.Before), as in the statement",
 			"with retention 0 (infinite) nothing is ever rejected or deleted",
+			"family X: a group with end + R beyond the int64 nanosecond range (year 2262) is not expired at any representable check time; the group containing MaxNanoTime ends at MaxInt64 ns (meta clamps it)",
 			"the fake TSDB store reports no shard in use and never fails; truncated groups are produced by editing TruncatedAt through Client.Data/SetData",
 		},
 		QuickBudgetS: 45, ThoroughBudgetS: 780,
@@ -724,6 +1141,33 @@ func TestCheck(t *testing.T) {
 					}
 				}
 			}
+			// family X
+			nX := 3
+			if c.Thorough() {
+				nX = 4
+			}
+			for _, l := range xLayouts(nX) {
+				live := false
+				for _, s := range l {
+					live = live || s == stLive || s == stTruncated
+				}
+				for _, d := range []time.Duration{time.Hour, 24 * time.Hour} {
+					for _, r := range xRetentions {
+						if r < d { // CreateRetentionPolicy rejects a retention period shorter than the shard group duration
+							continue
+						}
+						idx++
+						if !c.Mine(idx) {
+							continue
+						}
+						if c.Expired() {
+							c.Cap("budget expired in family X (family B complete)")
+							return
+						}
+						do(Case{Fam: "X", R: int64(r), D: int64(d), Anchors: l}, live)
+					}
+				}
+			}
 			// family A
 			for _, l := range layouts(nA) {
 				for _, cb := range combos {
@@ -734,7 +1178,7 @@ func TestCheck(t *testing.T) {
 								continue
 							}
 							if c.Expired() {
-								c.Cap("budget expired in family A (family B complete)")
+								c.Cap("budget expired in family A (families B and X complete)")
 								return
 							}
 							do(Case{Fam: "A", R: int64(cb.R), D: int64(cb.D), Layout: l, NowOff: np.off, NowDesc: np.desc, Batch: b}, true)
